@@ -12,7 +12,9 @@
               x-1 in slot 0, x-2 in slot 0 or in a slot of its own; nothing / x-1 / x-2 installed;
               p alone or together with x as targets: blockers against installed packages whose
               unblocked versions sit in the same or in ANOTHER slot; optionally an installed q with
-              the same blocker that p depends on (the blocker is registered twice).
+              the same blocker that p depends on (the blocker is registered twice).  Also: x installed
+              in two slots, a blocker !<x-3 spanning both, x-3 available for one of them, and an
+              earlier target that has put one of the slots into the plan.
    "versions" one name a with a lower and a higher version that differ in digit count or in a later
               component (9/10, 1.9/1.10, 2.9/2.10), each placed in the main repository, an
               overlay or the installed database; b depends on a: candidates from several
@@ -90,6 +92,19 @@ BlockerFamily ==
                  P("src", "x", <<2>>, s2, NoDeps)>> \o vx \o (IF wq THEN <<P("vdb", "q", <<1>>, "0", d)>> ELSE <<>>), t) :
              d \in BlockMenu, vx \in VdbChoicesX(s2), t \in BlockTargets, wq \in BOOLEAN} : s2 \in X2Slots}
 
+\* blockers spanning slots: x installed in two slots, the blocker !<x-3 hits both, the only source
+\* version x-3 goes into one of the slots; an earlier target may already have put one slot into the plan
+AS(key, op, ver, slot, blk) == [key |-> key, op |-> op, ver |-> ver, slot |-> slot, blk |-> blk]
+SpanFamily ==
+  {Case("blocker",
+        <<P("src", "p", <<1>>, "0", D("rdepend", <<One(A("x", "<", <<3>>, b))>>)), P("src", "x", <<3>>, s3, NoDeps),
+          P("vdb", "x", <<1>>, "1", NoDeps), P("vdb", "x", <<2>>, "2", NoDeps)>>, t) :
+      b \in {"weak", "strong"}, s3 \in {"1", "2"},
+      t \in {<<A("p", "any", AnyV, "none")>>,
+             <<AS("x", "any", AnyV, "1", "none"), A("p", "any", AnyV, "none")>>,
+             <<AS("x", "any", AnyV, "2", "none"), A("p", "any", AnyV, "none")>>,
+             <<A("x", "any", AnyV, "none"), A("p", "any", AnyV, "none")>>}}
+
 (* ---------------- versions ---------------- *)
 VersionPairs == {<<<<9>>, <<10>>>>, <<<<1, 9>>, <<1, 10>>>>}
                 \cup (IF Level = "tiny" THEN {} ELSE {<<<<2, 9>>, <<2, 10>>>>})
@@ -103,7 +118,7 @@ VersionFamily ==
       t \in {<<A("a", "any", AnyV, "none")>>, <<A("b", "any", AnyV, "none")>>}}
 
 \* [fam, pkgs |-> sequence of JSON packages, targets |-> sequence of JSON atoms]
-Family == MainFamily \cup BlockerFamily \cup VersionFamily
+Family == MainFamily \cup BlockerFamily \cup SpanFamily \cup VersionFamily
 
 \* a thinner family for the constant-level laws: both versions of a name share their dependencies
 LawFamilyOf(fam) == {c \in fam : c.fam # "main" \/
